@@ -112,6 +112,12 @@ CLAIMED = {
             "entries: one record per instant, each field equal to its row.", "4/C20",
             "bit-precise floating-point SMT (z3 QF_FP) of the grid construction read from the solver source + symbolic execution of Solution.__iter__; float replay on the real solvers",
             "Bounded to <= 5 (quick) / 16 (thorough) grid points, t0 = 0; known finding C20-time-grid-rounding (reported as KNOWN-FINDING); save/load outside."),
+    "C25": ("proof", "Inductive step of the angle tracking: from ANY tracking state satisfying the invariant (integer turn count n, previous quadrant) one "
+            "call of the real Revolute.l after an increment |delta| < pi/2 returns angle0 + 2 pi (n + m) + phi with the wrap count m, leaves turn "
+            "count n + m and the quadrant of the new angle, is idempotent, and reset / assembly establish the invariant. All four quadrant branches "
+            "of the real code per case; libm arctan resolved by solver-checked hints.", "4/C25",
+            "symbolic execution of the real quadrant/arctan code from an arbitrary invariant-satisfying state (Weierstrass angle, quadrant range axioms) + z3 per obligation; float replay",
+            "Histories of any length follow by induction on the stated invariant; phi = pi exactly and |n| > 1000 are outside; tolerance 1e-9 for np.pi vs pi."),
 }
 
 NOT_APPLICABLE = {
